@@ -34,8 +34,9 @@ pub(crate) fn any_plan<R: DynamicChannelRegion>(p: &mut DynamicChannelPlan<R>) {
     p.channel_mask = ChannelMask::from(m);
 }
 
-/// I-dyn: the join channels are present; at least one channel below 16 is both enabled and
-/// present; every present channel has an in-band uplink frequency.
+/// I-dyn: the join channels are present; every present channel has an in-band uplink frequency.
+/// (No invariant on the mask: since the "fix: dynamic-plan channel selection spins forever ..."
+/// commit selection falls back to the default mask when nothing defined is enabled.)
 pub(crate) fn inv<R: DynamicChannelRegion>(p: &DynamicChannelPlan<R>) -> bool {
     let mut usable = false;
     let mut in_band = true;
@@ -61,7 +62,8 @@ pub(crate) fn inv<R: DynamicChannelRegion>(p: &DynamicChannelPlan<R>) -> bool {
     }
     slot!(0); slot!(1); slot!(2); slot!(3); slot!(4); slot!(5); slot!(6); slot!(7);
     slot!(8); slot!(9); slot!(10); slot!(11); slot!(12); slot!(13); slot!(14); slot!(15);
-    usable && in_band && join_ok
+    let _ = usable;
+    in_band && join_ok
 }
 
 pub(crate) fn same<R: DynamicChannelRegion>(a: &DynamicChannelPlan<R>, b: &DynamicChannelPlan<R>) -> bool {
